@@ -133,6 +133,12 @@ def paren(rng):
     r = rng.random()
     if r < 0.2:
         return f"holding that {ws} (citing {word(rng)})"
+    if r < 0.4:
+        # explanatory text with numbers in it (never at its beginning: a parenthetical that *starts* with a
+        # year is read as the year parenthetical)
+        return rng.choice([f"overruled in part in {rng.randint(1900, 2020)}", f"applying the {rng.randint(1900, 2020)} Act to {ws}",
+                           f"{ws} {rng.randint(2, 9)}-{rng.randint(0, 4)} decision", f"citing {rng.randint(10, 99)} cases",
+                           f"noting that {ws} since {rng.randint(1800, 1999)}", f"en banc, {rng.randint(10000, 99999)} words"])
     return rng.choice(["holding that ", "overruling ", "noting ", ""]) + ws
 
 
